@@ -16,10 +16,11 @@ EXTENDS PageRules, Json, IOUtils
 Rec == ndJsonDeserialize(IOEnv.TRACE)
 
 VARIABLES l, reg, writer, lastCommit, maxDone, wtx,
+          who,              \* threads holding a registration: <<thread, snapshot>> (ground truth for the registry)
           before, left      \* release(): the pending entries (transaction ids) the code lists before / after its loop
-tvars == <<l, reg, writer, lastCommit, maxDone, wtx, before, left>>
+tvars == <<l, reg, writer, lastCommit, maxDone, wtx, before, left, who>>
 
-TInit == l = 1 /\ reg = <<>> /\ writer = 0 /\ lastCommit = -1 /\ maxDone = 0 /\ wtx = -1 /\ before = {} /\ left = {}
+TInit == l = 1 /\ reg = <<>> /\ writer = 0 /\ lastCommit = -1 /\ maxDone = 0 /\ wtx = -1 /\ before = {} /\ left = {} /\ who = {}
 
 Ev == Rec[l]
 Rep(rule, detail) == PrintT(ToJson([tag |-> "L2", line |-> l, rule |-> rule, detail |-> detail]))
@@ -36,6 +37,10 @@ Step ==
        ELSE IF Ev.ev = "fl:pending" THEN before' = before \cup {Ev.tx} /\ left' = left
        ELSE IF Ev.ev = "fl:pending_left" THEN left' = left \cup {Ev.tx} /\ before' = before
        ELSE UNCHANGED <<before, left>>
+    /\ IF Ev.ev = "reset" THEN who' = {}
+       ELSE IF Ev.ev = "tx:registered" THEN who' = who \cup {<<Ev.tid, Ev.tx_id>>}
+       ELSE IF Ev.ev = "drop:deregistered" THEN who' = who \ {<<Ev.tid, Ev.tx_id>>}
+       ELSE UNCHANGED who
     /\ CASE Ev.ev = "reset" ->
               reg' = <<>> /\ writer' = 0 /\ lastCommit' = Ev.txid /\ maxDone' = Ev.txid /\ wtx' = -1
          [] Ev.ev = "tx:locked" /\ Ev.w = 1 ->
@@ -50,8 +55,8 @@ Step ==
               /\ UNCHANGED <<reg, writer, lastCommit, maxDone, wtx>>
          [] Ev.ev = "fl:released" ->
               \* what release() really did (inside the registry critical section, so reg is exact)
-              /\ Check(\A t \in before \ left : t <= MinOf(Snaps \cup {wtx - 1}), "reader-page-released",
-                       <<before \ left, wtx, reg>>)
+              /\ Check(\A t \in before \ left : t <= MinOf(Snaps \cup {wtx - 1} \cup {r[2] : r \in who}), "reader-page-released",
+                       <<before \ left, wtx, reg, who>>)
               /\ Check(\A t \in left : t >= MinOf(Snaps \cup {wtx}), "must-release", <<left, wtx, reg>>)
               /\ UNCHANGED <<reg, writer, lastCommit, maxDone, wtx>>
          [] Ev.ev = "tx:registered" ->
@@ -59,6 +64,8 @@ Step ==
               /\ reg' = Append(reg, Ev.tx_id) /\ UNCHANGED <<writer, lastCommit, maxDone, wtx>>
          [] Ev.ev = "drop:deregistered" ->
               /\ Check(Ev.tx_id \in Snaps, "deregistered-unknown-reader", <<Ev.tid, Ev.tx_id, reg>>)
+              \* only the thread that registered an entry may take it out again (a writer's drop must not)
+              /\ Check(<<Ev.tid, Ev.tx_id>> \in who, "deregistered-by-a-thread-without-registration", <<Ev.tid, Ev.tx_id, who>>)
               /\ reg' = RemoveOne(reg, Ev.tx_id) /\ UNCHANGED <<writer, lastCommit, maxDone, wtx>>
          [] Ev.ev = "commit:meta_written" ->
               /\ Check(Ev.tx_id = lastCommit + 1, "commit-id-not-previous-plus-one", <<Ev.tx_id, lastCommit>>)
